@@ -147,6 +147,8 @@ pub fn run_check(spec: &CheckSpec, tier: Tier) -> i32 {
     let harness_errors: Mutex<Vec<String>> = Mutex::new(vec![]);
     let total = Mutex::new(Acc::default());
 
+    let skip_seeds = crate::watchdog::skipped_seeds();
+    let skip_seeds = &skip_seeds;
     std::thread::scope(|scope| {
         for _ in 0..workers() {
             scope.spawn(|| {
@@ -160,9 +162,17 @@ pub fn run_check(spec: &CheckSpec, tier: Tier) -> i32 {
                         break;
                     }
                     let rs = run_seed(seed, spec.prop, i);
+                    if skip_seeds.contains(&rs) {
+                        // set aside by the watchdog in an earlier incarnation of this batch
+                        acc.runs += 1;
+                        acc.aborted += 1;
+                        *acc.other_property_findings.entry(format!("C09:{}", crate::watchdog::HANG_CLASS)).or_insert(0) += 1;
+                        continue;
+                    }
                     let case = (spec.gen)(rs, i, tier);
                     let res = (spec.exec)(&case);
                     acc.runs += 1;
+                    RUNS_DONE.fetch_add(1, Ordering::Relaxed);
                     acc.evaluations += (spec.evals)(&res);
                     if res.completed {
                         acc.completed += 1;
@@ -309,6 +319,21 @@ pub fn run_check(spec: &CheckSpec, tier: Tier) -> i32 {
     }
     exit
 }
+
+/// Evidence for a batch that ended because a run did not terminate (written by the watchdog just
+/// before the process re-executes itself to verify the replay file).
+pub fn write_stuck_evidence(prop: &str, why: &str) {
+    let Some(spec) = crate::checks::spec_for(prop) else { return };
+    let mut acc = Acc::default();
+    acc.runs = RUNS_DONE.load(Ordering::Relaxed);
+    acc.evaluations = acc.runs;
+    acc.completed = acc.runs;
+    acc.samples.push(json!({"note": format!("batch ended by the watchdog: {}", why)}));
+    let ev = EvidenceSpec { property: spec.prop, tier: "unknown", seed: env_seed(), level: spec.level, rule: spec.rule, assumptions: spec.assumptions.clone(), wall_s: 0.0, violations: 1, exhaustive: spec.exhaustive, expected_probes: spec.expected_probes, extra: spec.extra.clone() };
+    write_evidence(&ev, &acc);
+}
+
+pub static RUNS_DONE: std::sync::atomic::AtomicU64 = std::sync::atomic::AtomicU64::new(0);
 
 fn same_violation(res: &CaseResult, prop: &str, f: &Finding) -> Option<Finding> {
     res.findings_for(prop).find(|g| g.class == f.class).cloned()
